@@ -425,6 +425,8 @@ fn describe(d: &BTreeMap<Key, (u64, u64)>) -> String {
 struct ImageVerdict {
     outcome: &'static str,
     detail: String,
+    /// property the outcome refutes
+    tag: &'static str,
 }
 
 fn check_image(cfg: &TreeCfg, dir: &Path, keys: &[Key], acceptable: &[&Dump], exercise: bool) -> ImageVerdict {
@@ -459,6 +461,16 @@ fn check_image(cfg: &TreeCfg, dir: &Path, keys: &[Key], acceptable: &[&Dump], ex
                 ),
             ));
         }
+        // C20 "always after a reopen": the recovered directory holds no table, blob or version file other than those
+        // the recovered version names (crashes leave partial files; recovery has to clean them up)
+        {
+            let hist = tree.get_version_history_lock().verif_history();
+            let f = crate::audit::audit_dir(dir, &hist, &Default::default(), true, "crash-recovery");
+            drop(hist);
+            if let Some(f) = f.first() {
+                return Err(("dir-audit", format!("{}: {}", f.sig, f.msg)));
+            }
+        }
         if exercise {
             // the recovered tree must be usable: write, flush, compact, read back
             let s = 2_000_000;
@@ -479,9 +491,9 @@ fn check_image(cfg: &TreeCfg, dir: &Path, keys: &[Key], acceptable: &[&Dump], ex
         Ok(())
     }));
     match r {
-        Ok(Ok(())) => ImageVerdict { outcome: "ok", detail: String::new() },
-        Ok(Err((o, d))) => ImageVerdict { outcome: o, detail: d },
-        Err(_) => ImageVerdict { outcome: "open-panic", detail: format!("panic: {}", hooks::take_panic().unwrap_or_default()) },
+        Ok(Ok(())) => ImageVerdict { outcome: "ok", detail: String::new(), tag: "C05" },
+        Ok(Err((o, d))) => ImageVerdict { outcome: o, detail: d, tag: if o == "dir-audit" { "C20" } else { "C05" } },
+        Err(_) => ImageVerdict { outcome: "open-panic", detail: format!("panic: {}", hooks::take_panic().unwrap_or_default()), tag: "C05" },
     }
 }
 
@@ -658,6 +670,16 @@ pub fn crashcheck(args: &Args) -> i32 {
                         "UnexpectedEof"
                     } else if v.detail.contains("ChecksumMismatch") {
                         "ChecksumMismatch"
+                    } else if v.outcome == "dir-audit" {
+                        if v.detail.contains("leak:table") {
+                            "leak:table"
+                        } else if v.detail.contains("leak:blob") {
+                            "leak:blob"
+                        } else if v.detail.contains("leak:version") {
+                            "leak:version"
+                        } else {
+                            "premature-delete"
+                        }
                     } else {
                         "other"
                     };
@@ -669,8 +691,8 @@ pub fn crashcheck(args: &Args) -> i32 {
                         if vname == "full" { String::new() } else { format!(" [{vname}]") },
                         v.detail
                     );
-                    if known.contains(&("C05".to_string(), sig.clone())) {
-                        let e = known_hits.entry(format!("C05|{sig}")).or_insert((0, msg.clone()));
+                    if known.contains(&(v.tag.to_string(), sig.clone())) {
+                        let e = known_hits.entry(format!("{}|{sig}", v.tag)).or_insert((0, msg.clone()));
                         e.0 += 1;
                     } else if seen_sig.insert(sig.clone()) && violations.len() < 5 {
                         let _ = std::fs::create_dir_all(&replay_dir);
@@ -684,7 +706,7 @@ pub fn crashcheck(args: &Args) -> i32 {
                         o.set("config", c.cfg.describe());
                         o.set("ops", J::Arr(c.history.iter().enumerate().map(|(i, op)| J::s(format!("#{i} {}", op.render(&c.uni)))).collect()));
                         let mut vj = J::obj();
-                        vj.set("tags", J::Arr(vec![J::s("C05")]));
+                        vj.set("tags", J::Arr(vec![J::s(v.tag)]));
                         vj.set("sig", J::s(sig));
                         vj.set("msg", J::s(msg));
                         o.set("violation", vj.clone());
